@@ -25,6 +25,7 @@ func init() {
 			checkErrorIdentity(c, scopeReplyPath, nil, 6)
 			c.Clause("4 event truncation")
 			checkEventBuffer(c, true)
+			checkFrontEndReadsBody(c)
 		},
 	})
 }
